@@ -63,6 +63,9 @@ Ltac lanes_k tac :=
 Ltac alg_ring := intros; vm_compute; lits; lanes_k ltac:(ring).
 (* rational functions: the side conditions of [field] (the code's own denominators) follow from the hypotheses H : d <> k0 *)
 Ltac side_nz := repeat split; let Hc := fresh "Hc" in (intro Hc; match goal with H : _ <> k0 |- _ => apply H; rewrite <- Hc; ring | H : _ <> k0 |- _ => apply H; exact Hc end).
+(* uninterpreted functions (sqrt) of arguments that agree as polynomials *)
+Ltac congr_ring := first [ring | (f_equal; congr_ring)].
+Ltac alg_congr := intros; vm_compute; lits; lanes_k ltac:(congr_ring).
 Ltac alg_field := intros; vm_compute; lits; lanes_k ltac:(field; side_nz).
 '''
 
